@@ -31,6 +31,7 @@ def check(ctx):
     # context of "the local parent" is the innermost scope's, whose decision may differ from an enclosing scope's
     from .. import spanrules
     spanrules.rule_noop_only_without_parent(ctx, facts, "R7")
+    provrules.rule_whole_token_inherited(ctx, facts, "R7")
     scopes.rule_span_lines_innermost_only(ctx, facts, "R8")
     # what "the local parent in effect" needs from the scope stack (see props/common.py)
     from .common import scope_bundle
